@@ -17,8 +17,10 @@
    Tolerance: every comparison allows Eps = 1 quantum = 1/scale (scale = 10^9 for PEPs, so 1e-9 absolute; the
    q-value estimators "from_counts" are not bounded by 1 and are recorded at the largest power of ten
    scale <= 10^9 that keeps round(value * scale) inside TLC's 32-bit integers).  One quantum is exactly the
-   rounding slack of the projection: |round(a s) - round(b s)| <= 1 whenever |a - b| s <= 1/2 ... and the
-   estimators' own float noise (<= 1e-13 measured) is far below it.
+   rounding slack of the projection (|round(a s) - round(b s)| <= 1 whenever |a - b| s <= 1); summation-order
+   noise of a numerically stable estimator (1e-14 measured for kde_nnls on most inputs) is far below it.  A larger
+   difference between Est(x o perm) and Est(x) o perm is a dependence of the estimate on the row order and is
+   reported under Equivariant (it is what mis-alignment looks like from outside).
 
    Domain (property text): >= 50 targets and >= 50 decoys, non-degenerate score distribution (taken as
    >= 20 distinct score values).  Estimates outside are accepted vacuously (info "out_of_domain"). *)
